@@ -66,6 +66,7 @@ pub fn selftest_cmd(seed: u64) -> i32 {
                 tail: vec![crate::exec::Tail::Encode],
                 exec: None,
                 info: None,
+                walk: None,
             };
             let res = crate::exec::run(&sc);
             if let Some(e) = &res.parse_err {
